@@ -146,3 +146,9 @@ class lb_mouse_event:
                 at_row, both(eq(ev[1], w), x["col"] == a.col, x["row"] == a.row - Yk, x["button"] == a.button, eq(x["event"], a.event)))
         yield "row-below-the-last-visible-item-changes-nothing", implies(
             a.row >= Yn, both(len(me) == 0, eq(result, False), now[1] == was))
+        if "updown_K" in st.ghost:
+            # the wheel: the 'up' / 'down' procedure that ran reports how far along the walker's chain, and in which direction,
+            # the focus went (callee side of contracts/C07_keys.py): button 4 scrolls up, button 5 down
+            ch, _d, K = st.ghost["updown_K"]
+            for button, d in ((4, 0), (5, 1)):
+                yield f"wheel-button-{button}-moves-the-focus-{('up', 'down')[d]}-the-list-or-keeps-it", implies(a.button == button, both(K >= 0, ch.ok(d, K), now[1] == ch.pos(d, K)))
